@@ -76,12 +76,16 @@ Proof.
   - rewrite E in Hm4; discriminate.
 Qed.
 
+Lemma memptr_ok_implicit : forall P, memptr_ok P = true -> P = MPImplicit.
+Proof. intros [| |] H; try reflexivity; discriminate. Qed.
+
 Lemma lib_call_args_callable_args :
-  forall M, tmodes_ok M = true ->
-    forall f d args, lib_call_args M f d args = callable_args f args.
+  forall M P, tmodes_ok M = true -> memptr_ok P = true ->
+    forall f d args, lib_call_args M P f d args = callable_args f args.
 Proof.
-  intros M HM. destruct (tmodes_ok_not_by_value M HM) as [H1 [H2 [H3 [H4 [H5 H6]]]]].
-  induction f as [ps rf|oc mc ps rf|g IH v|g IH|g IH|g IH]; intros d args; simpl.
+  intros M P HM HP. apply memptr_ok_implicit in HP. subst P.
+  destruct (tmodes_ok_not_by_value M HM) as [H1 [H2 [H3 [H4 [H5 H6]]]]].
+  induction f as [ps rf|rel oc mc ps rf|g IH v|g IH|g IH|g IH]; intros d args; simpl.
   - rewrite (tpass_not_by_value _ d args H1). reflexivity.
   - rewrite (tpass_not_by_value _ d args H2). reflexivity.
   - rewrite (tpass_not_by_value _ d args H3). apply IH.
@@ -91,19 +95,33 @@ Proof.
 Qed.
 
 Lemma lib_call_callable :
-  forall M, tmodes_ok M = true ->
-    forall f d args r, lib_call M f d args r = callable f args r.
+  forall M P, tmodes_ok M = true -> memptr_ok P = true ->
+    forall f d args r, lib_call M P f d args r = callable f args r.
 Proof.
-  intros M HM f d args r. unfold lib_call, callable.
-  rewrite (lib_call_args_callable_args M HM). reflexivity.
+  intros M P HM HP f d args r. unfold lib_call, callable.
+  rewrite (lib_call_args_callable_args M P HM HP). reflexivity.
 Qed.
 
 Lemma accepts_iff_callable :
-  forall M, tmodes_ok M = true -> forall sig r f, lib_accepts M sig r f = direct_ok sig r f.
+  forall M P, tmodes_ok M = true -> memptr_ok P = true ->
+    forall sig r f, lib_accepts M P sig r f = direct_ok sig r f.
 Proof.
-  intros M HM sig r f. unfold lib_accepts, direct_ok.
-  rewrite (lib_call_callable M HM). reflexivity.
+  intros M P HM HP sig r f. unfold lib_accepts, direct_ok.
+  rewrite (lib_call_callable M P HM HP). reflexivity.
 Qed.
+
+(* a method of a class the object's class does not derive from is rejected, whatever else matches *)
+Lemma foreign_method_rejected :
+  forall rel oc mc ps rf sig r, memptr_doc rel = false -> direct_ok sig r (TMemBound rel oc mc ps rf) = false.
+Proof.
+  intros rel oc mc ps rf sig r H. unfold direct_ok, callable. simpl. rewrite H. simpl. apply andb_false_r.
+Qed.
+
+(* a factory that casts the method pointer explicitly accepts a method of a derived class on a base object *)
+Lemma explicit_memptr_launders :
+  lib_accepts [] MPExplicit [] None (TMemBound RMethInDerived false false [] None) = true /\
+  direct_ok [] None (TMemBound RMethInDerived false false [] None) = false.
+Proof. split; vm_compute; reflexivity. Qed.
 
 (* ------------------------------------------------------------------------------------------ *)
 (* the named rejection classes *)
@@ -134,9 +152,9 @@ Proof.
 Qed.
 
 Lemma nonconst_method_on_const_object_rejected :
-  forall ps rf sig r, direct_ok sig r (TMemBound true false ps rf) = false.
+  forall rel ps rf sig r, direct_ok sig r (TMemBound rel true false ps rf) = false.
 Proof.
-  intros ps rf sig r. unfold direct_ok, callable. simpl. apply andb_false_r.
+  intros rel ps rf sig r. unfold direct_ok, callable. simpl. rewrite andb_false_r. simpl. apply andb_false_r.
 Qed.
 
 Lemma incompatible_result_rejected :
